@@ -291,9 +291,9 @@ def config_text(case, with_other=True):
         L += other_block(case)
     b = case["bias"]
     if b["type"] == "linear":
-        L += ["linear {", "  colvars v", "  centers 0.0", "  forceConstant %r" % b["k"], "}"]
+        L += ["linear {", "  name b", "  colvars v", "  centers 0.0", "  forceConstant %r" % b["k"], "}"]
     elif b["type"] == "harmonic":
-        L += ["harmonic {", "  colvars v", "  centers %r" % b["c"], "  forceConstant %r" % b["k"], "}"]
+        L += ["harmonic {", "  name b", "  colvars v", "  centers %r" % b["c"], "  forceConstant %r" % b["k"], "}"]
     return L
 
 
@@ -311,7 +311,11 @@ def scenario(case, k):
             L.append("pos %d %s %s %s" % (i + 1, hx(p[0]), hx(p[1]), hx(p[2])))
         L += ["step"] * late
     L += ["config EOF"] + config_text(case, with_other=not late) + ["EOF"] + (["hidej v"] if case["hide"] else []) + ["show tf 1 af 1 energy 0 bias 0"]
+    applying = True
     for s in case["steps"]:
+        if bool(s.get("off")) == applying:      # the bias stops / resumes applying its force (the variable stays active)
+            applying = not applying
+            L.append("script cv bias b set apply_force %d" % (1 if applying else 0))
         for i, p in enumerate(s["pos"]):
             L.append("pos %d %s %s %s" % (i + 1, hx(p[0]), hx(p[1]), hx(p[2])))
         ef = s["ef"]
@@ -365,7 +369,7 @@ def parse_impl(lines):
                 elif w[0] == "FOLD":
                     st["fold"][w[1]] = float.fromhex(w[2])
                 elif w[0] == "ROT" and w[1] == "v":
-                    st.setdefault("rot", {})[int(w[2])] = [float.fromhex(x) for x in w[4:9]]
+                    st.setdefault("rot", {})[int(w[2])] = [float.fromhex(x) for x in w[4:9]] + [int(w[9])] + [float.fromhex(x) for x in w[10:]]
                 elif w[0] == "ATOMF":
                     st["atomf"][int(w[1])] = [float.fromhex(x) for x in w[2:5]]
             except ValueError:
@@ -398,9 +402,9 @@ def bias_force(case, value):
     if b["type"] == "linear":
         return -b["k"]
     d = value - b["c"]
-    # colvar::dist2_lgrad: a homogeneous variable (all coefficients +-1) uses the metric of its FIRST component, and
-    # components are created in the alphabetical order of their keywords (std::map), not in configuration order
-    if all(abs(c["coeff"]) == 1.0 for c in case["comps"]) and min(c["kind"] for c in case["comps"]) == "dihedral":
+    # colvar::dist2_lgrad (after the C18 repair in /repo main): the periodic difference is used only when the variable
+    # itself is periodic, i.e. all its components are periodic with the same period (here: dihedrals, coefficients +-1)
+    if periodic(case):
         d = d - 360.0 * math.floor(d / 360.0 + 0.5)
     return -b["k"] * d
 
@@ -456,10 +460,15 @@ def model_line(case, isteps):
     for t, s in enumerate(case["steps"]):
         p.append(vl(s["pos"]))
         p.append(vl(step_eforce(case, isteps, t)))
-        p.append(hx(bias_force(case, isteps[t]["cv"].get("v", float("nan")))))
+        p.append(hx(0.0 if s.get("off") else bias_force(case, isteps[t]["cv"].get("v", float("nan")))))
         for ci in rot_indices(case):
-            p.append(" ".join(hx(x) for x in isteps[t].get("rot", {}).get(ci, [1.0, 0.0, 0.0, 0.0, 0.0])))
+            p.append(rot_txt(isteps[t].get("rot", {}).get(ci, [1.0, 0.0, 0.0, 0.0, 0.0, 0]), True))
     return " ".join(p)
+
+
+def rot_txt(vals, _=True):
+    """q0 q1 q2 q3 jd nfit fit..: the count is an integer"""
+    return " ".join(hx(x) for x in vals[:5]) + " %d " % int(vals[5]) + " ".join(hx(x) for x in vals[6:])
 
 
 def rot_indices(case):
@@ -567,20 +576,18 @@ def gen_comp(r, kind, atoms, overlap=False):
 
 def inverse_ok(case):
     """the configuration satisfies the hypotheses of the inverse theorems: groups pairwise disjoint, components on
-    disjoint atoms, centred rmsd/eigenvector groups fitted on the component's own reference positions"""
+    disjoint atoms"""
     seen = set()
     for c in case["comps"]:
         at = comp_atoms(c)
         if len(set(at)) != len(at) or seen & set(at):
             return False
         seen |= set(at)
-        if c.get("center") and cog(c["gref"], range(1, len(c["ids"]) + 1)) != cog(c["refs"], range(1, len(c["ids"]) + 1)):
-            return False
     return True
 
 
 def gen_case(r, idx, typ=None, kinds=None):
-    typ = typ or r.choice(["INV", "INV", "LIN", "LOC", "TIM", "RND"])
+    typ = typ or r.choice(["INV", "INV", "LIN", "LOC", "TIM", "RND", "OFF"])
     ncomp = 1 if r.random() < 0.7 else 2
     kinds = kinds or [r.choice(KINDS) for _ in range(ncomp)]
     overlap = typ == "RND" and r.random() < 0.3
@@ -666,6 +673,16 @@ def gen_case(r, idx, typ=None, kinds=None):
         E = [field() for _ in range(4)]
         steps = [{"pos": P[0], "ef": E[0]}, {"pos": P[1], "ef": E[1]}, {"pos": P[0], "ef": E[0]},
                  {"pos": P[2], "ef": E[2]}, {"pos": P[3], "ef": E[3]}]
+    elif typ == "OFF":
+        # the bias applies its force at some steps only (apply_force switched off and on again while the variable stays
+        # active and measured): the applied force is zero between non-zero ones
+        case["hide"] = False
+        if case["bias"]["type"] == "none":
+            case["bias"] = {"type": "linear", "k": 2.0}
+        if not case["same"]:
+            case["inc"] = 1
+        pat = r.choice([[0, 1, 0, 0, 1, 1, 0], [0, 0, 1, 0, 1, 0], [1, 0, 0, 1, 1, 0]])
+        steps = [{"pos": P[i % 4], "ef": (zero if r.random() < 0.5 else field()), "off": bool(o)} for i, o in enumerate(pat)]
     else:
         steps = [{"pos": P[i % 4], "ef": field() if r.random() < 0.7 else zero} for i in range(r.randint(2, 5))]
     case["steps"] = steps
@@ -939,7 +956,7 @@ def process(run, runner, cases, sample=0):
             run.mismatch("config:%s" % kd, {"case": c}, [cs["config"]] + [s["err"] for s in cs["steps"]], "accepted, all steps ok")
             continue
         isteps = cs["steps"]
-        nontriv = c.get("invok", False) and any(delivered_is_own(c, t) is not None for t in range(len(isteps))) or c["type"] in ("LIN", "LOC", "TIM", "ZERO", "ROT")
+        nontriv = c.get("invok", False) and any(delivered_is_own(c, t) is not None for t in range(len(isteps))) or c["type"] in ("LIN", "LOC", "TIM", "ZERO", "ROT", "OFF")
         run.count(json.dumps(c, sort_keys=True), bool(nontriv) and any(s["tf"].get("v") not in (None, 0.0) for s in isteps))
         for sig, text in oracle(c, isteps):
             run.violation(sig, text, rp)
@@ -1060,6 +1077,13 @@ def check(run):
             while c is None or not c["comps"][0].get("onesite") or c["same"] != same:
                 c = gen_case(r, 0, "LOC", [kind])
             first.append(c)
+    for kind in ("distance", "angle", "gyration"):        # applied force zero between non-zero ones, subtract on and off
+        for sub in (True, False):
+            c = None
+            while c is None or c["same"]:
+                c = gen_case(r, 0, "OFF", [kind])
+            c["sub"] = sub
+            first.append(c)
     for i in range(24 if quick else 1200):          # rotated frames
         first.append(rot_case(r, "rmsd" if i % 2 == 0 else "eigenvector"))
     n = 300 if quick else 12000
@@ -1078,7 +1102,8 @@ def check(run):
         for b0 in range(0, len(group), B):
             process(run, runner, group[b0:b0 + B], sample=0 if shown else 3)
             shown = True
-    tw = [c for c in cases if c["type"] in ("ZERO", "INV", "TIM", "RND") and not any(cc["kind"] == "eigenvector" for cc in c["comps"])]
+    tw = [c for c in cases if c["type"] in ("OFF", "ZERO", "INV", "TIM", "RND") and not any(cc["kind"] == "eigenvector" for cc in c["comps"])]
+    tw.sort(key=lambda c: 0 if c["type"] in ("OFF", "ZERO") else 1)
     tw = tw[:120 if quick else 3000]
     for b0 in range(0, len(tw), B):
         process_twins(run, runner, tw[b0:b0 + B])
